@@ -135,6 +135,9 @@ def check(ctx):
     ctx.rule("C10-R6", "Each over a dictionary iterates items() once and applies the verb once per pair; Size is len()")
 
     c04.check_dict_literal(ctx, repo, "C10-R1")
+    ctx.rule("C10-R9", "assignment binds the dictionary object itself (klong[name] = v stores v, not a copy): every alias of a dictionary sees its in-situ updates (shared with C09-R4)")
+    from . import c09 as _c09
+    _c09.check_assignment_stores_the_object(ctx, repo, "C10-R9")
 
     dy = repo.module("dyads")
     join, drop, find = repo.fn("dyads:eval_dyad_join"), repo.fn("dyads:eval_dyad_drop"), repo.fn("dyads:eval_dyad_find")
